@@ -295,9 +295,23 @@ def run(tier: str, seed: int, known: list[dict[str, Any]]) -> dict[str, Any]:
                 text = bytes(text, "utf-8").decode("unicode_escape") if "\\u{" not in text else _unescape(text)
             except Exception:
                 pass
-            err = _real_error_token(lx, st, text)
+            err = _accepted_error_text(st, text)
+            if not err and st in _BODY:
+                # the solver's first witness cannot be completed into an accepted source (e.g. a lone backslash): ask for an
+                # uncovered word inside the language of accepted string bodies of this state
+                s3 = z3.Solver()
+                s3.add(z3.Length(x) >= 1, z3.Not(z3.InRe(x, cover)), z3.InRe(x, R.translate(_BODY[st], re.DOTALL).rx))
+                if check(s3) == "sat":
+                    w3 = s3.model()[x]
+                    text = _unescape(w3.as_string()) if w3 is not None else text
+                    err = _accepted_error_text(st, text)
             if err:
-                violation("lexer emits an Error token", {"state": st, "text_at_state": text, "full_text": err})
+                violation("lexer emits an Error token for a source the compiler accepts", {"state": st, "text_at_state": text, "full_text": err})
+            elif _real_error_token(lx, st, text):
+                # an Error token, but only on a text the compiler rejects: the property is silent about such texts
+                res["inconclusive"].append({"ob": "C17.R2", "state": "unknown",
+                                            "message": f"state {st}: {text!r} is not covered by any rule (Error token for real), but "
+                                                       f"no completion of it into a source the compiler accepts was found"})
             else:
                 res["inconclusive"].append({"ob": "C17.R2", "state": "unknown",
                                             "message": f"state {st}: uncovered word {text!r} in the encoding does not "
@@ -341,6 +355,36 @@ def _child(fn: Any, args: tuple, limit: float = 10.0) -> tuple[bool, Any]:
         if p.is_alive():
             p.kill()
             p.join()
+
+
+# bodies the grammar accepts between the delimiters of each string state (SsbCommon.g4 STRING_LITERAL / MULTILINE_STRING_LITERAL;
+# multi-line bodies are restricted to bodies without the delimiter's quote character, which is enough for a witness)
+_BODY = {"dq_string": r'''(?:\\.|[^\\\r\n\f"])*''', "sq_string": r"""(?:\\.|[^\\\r\n\f'])*""",
+         "mdq_string": r'''[^"]*''', "msq_string": r"""[^']*"""}
+_CLOSE = {"root": "", "mdq_string": '"""', "msq_string": "'''", "dq_string": '"', "sq_string": "'"}
+
+
+def _accepted_error_text(state: str, text: str) -> str | None:
+    """complete (state entry + text) into sources; return one that the real compiler accepts and for which the real lexer
+    emits an Error token"""
+    from harness.pC01 import compile_text
+
+    if state not in _ENTER:
+        return None
+    core = _ENTER[state] + text + _CLOSE[state]
+    if state == "root":
+        cands = [core, "def 0 { a(); }\n" + core, "def 0 { " + core + " }", "def 0 { a(" + core + "); }", "def 0 { " + core + "; }"]
+    else:
+        cands = ["def 0 { a(" + core + "); }", "def 0 { a(" + core + "); }\n"]
+    for c in cands:
+        try:
+            compile_text(c)
+        except Exception:  # noqa
+            continue
+        done, err = _child(_error_token_child, (c,))
+        if done and err:
+            return c
+    return None
 
 
 def _error_token_child(full: str, q: Any) -> None:
